@@ -104,6 +104,176 @@ theorem required_slot_some {m : Mode} {a : AtenSchema} {s : OsSig} (h : bindsOk 
       rw [hxn.1] at hk
       simp [c1, hk]
 
+
+/-! ### converse closed form, extreme calls (for the tightness theorem) -/
+
+theorem bindS_ok_eq_slots (npos : Nat) (kws : List String) (k : Nat) (ps : List OParam) (b : Binding)
+    (h : bindS npos kws k ps = .ok b) : b = slots npos kws k ps := by
+  induction ps generalizing k b with
+  | nil => simp only [bindS, Except.ok.injEq] at h; simp [slots, ← h]
+  | cons p ps ih =>
+    unfold bindS at h
+    unfold slots slot
+    by_cases c1 : k < npos
+    · rw [if_pos c1] at h ⊢
+      cases hr : bindS npos kws (k + 1) ps with
+      | error e => rw [hr] at h; cases h
+      | ok b' =>
+        rw [hr] at h
+        simp only [Except.map, Except.ok.injEq] at h
+        rw [← h, ih (k + 1) b' hr]
+    · rw [if_neg c1] at h ⊢
+      by_cases c2 : kws.contains p.name = true
+      · rw [if_pos c2] at h ⊢
+        cases hr : bindS npos kws (k + 1) ps with
+        | error e => rw [hr] at h; cases h
+        | ok b' =>
+          rw [hr] at h
+          simp only [Except.map, Except.ok.injEq] at h
+          rw [← h, ih (k + 1) b' hr]
+      · rw [if_neg c2] at h ⊢
+        by_cases c3 : p.required = true
+        · rw [if_pos c3] at h; cases h
+        · rw [if_neg c3] at h
+          cases hr : bindS npos kws (k + 1) ps with
+          | error e => rw [hr] at h; cases h
+          | ok b' =>
+            rw [hr] at h
+            simp only [Except.map, Except.ok.injEq] at h
+            rw [← h, ih (k + 1) b' hr]
+
+/-- What a successful Python call guarantees (the four `TypeError` guards were all false). -/
+theorem bindT_ok_facts (s : OsSig) (c : Call) (b : Binding) (h : bindT s c = .ok b) :
+    ¬ s.length < c.npos ∧
+    (∀ n, n ∈ c.kws → s.any (fun q => q.name == n) = true) ∧
+    b = slots c.npos c.kws 0 s := by
+  unfold bindT at h
+  by_cases g1 : s.length < c.npos
+  · simp [g1] at h
+  · rw [if_neg g1] at h
+    by_cases g2 : c.kws.any (fun n => !(s.any (fun q => q.name == n))) = true
+    · simp [g2] at h
+    · rw [if_neg g2] at h
+      refine ⟨g1, ?_, ?_⟩
+      · intro n hn
+        cases hv : s.any (fun q => q.name == n) with
+        | true => rfl
+        | false =>
+          exfalso; apply g2
+          rw [List.any_eq_true]
+          exact ⟨n, hn, by simp [hv]⟩
+      · split at h
+        · cases h
+        · split at h
+          · cases h
+          · simp only [Except.ok.injEq] at h; exact h.symm
+
+theorem bind_ok_eq_slots (m : Mode) (s : OsSig) (c : Call) (b : Binding) (h : bind m s c = .ok b) :
+    b = slots c.npos c.kws 0 s := by
+  cases m with
+  | scripted => exact bindS_ok_eq_slots _ _ _ _ _ h
+  | traced => exact (bindT_ok_facts s c b h).2.2
+
+theorem mustSupply_iff (l : List AArg) (j : Nat) :
+    (l.drop j).any (fun x => !x.hasDefault) = true ↔ j < nreqPos l := by
+  induction l generalizing j with
+  | nil => simp [nreqPos]
+  | cons x xs ih =>
+    have h0 : xs.any (fun x => !x.hasDefault) = true ↔ 0 < nreqPos xs := by
+      have := ih 0; simpa using this
+    cases j with
+    | zero =>
+      simp only [List.drop_zero, List.any_cons, Bool.or_eq_true]
+      rw [nreqPos]
+      split
+      · rename_i hc
+        simp only [Bool.or_eq_true, decide_eq_true_eq] at hc
+        constructor
+        · intro _; omega
+        · intro _
+          rcases hc with hc | hc
+          · left; exact hc
+          · right; exact h0.mpr hc
+      · rename_i hc
+        constructor
+        · intro h
+          exfalso; apply hc
+          rcases h with h | h
+          · simp [h]
+          · simp [h0.mp h]
+        · intro h; omega
+    | succ j =>
+      simp only [List.drop_succ_cons]
+      rw [ih j, nreqPos]
+      split
+      · omega
+      · rename_i hc
+        simp only [Bool.or_eq_true, decide_eq_true_eq, not_or] at hc
+        omega
+
+theorem nreqPos_le (l : List AArg) : nreqPos l ≤ l.length := by
+  induction l with
+  | nil => simp [nreqPos]
+  | cons x xs ih =>
+    simp only [nreqPos, List.length_cons]
+    split <;> omega
+
+theorem conforms_maxCall (a : AtenSchema) : Conforms a (maxCall a) := by
+  refine ⟨Nat.le_refl _, ?_, ?_, ?_⟩
+  · intro i arg hi _
+    exact (List.getElem?_eq_some_iff.mp hi).1
+  · intro n hn
+    simp only [maxCall, List.mem_map] at hn
+    exact hn
+  · intro arg harg _
+    simp only [maxCall, List.mem_map]
+    exact ⟨arg, harg, rfl⟩
+
+theorem conforms_minCall (a : AtenSchema) : Conforms a (minCall a) := by
+  refine ⟨nreqPos_le _, ?_, ?_, ?_⟩
+  · intro i arg hi hd
+    apply (mustSupply_iff a.positional i).mp
+    rw [List.any_eq_true]
+    refine ⟨arg, ?_, by simp [hd]⟩
+    rw [List.mem_iff_getElem?]
+    exact ⟨0, by rw [List.getElem?_drop]; simpa using hi⟩
+  · intro n hn
+    simp only [minCall, List.mem_map, List.mem_filter] at hn
+    obtain ⟨arg, ⟨harg, _⟩, hn⟩ := hn
+    exact ⟨arg, harg, hn⟩
+  · intro arg harg hd
+    simp only [minCall, List.mem_map, List.mem_filter]
+    exact ⟨arg, ⟨harg, by simp [hd]⟩, rfl⟩
+
+/-- Distinct parameter names: a name determines the index. -/
+theorem index_of_name {s : OsSig} (hnd : (s.map (·.name)).Nodup) {j j' : Nat} {q p : OParam}
+    (hq : s[j]? = some q) (hp : s[j']? = some p) (hn : q.name = p.name) : j = j' := by
+  have hj : j < (s.map (·.name)).length := by
+    rw [List.length_map]; exact (List.getElem?_eq_some_iff.mp hq).1
+  apply (List.getElem?_inj hj hnd).mp
+  rw [List.getElem?_map, List.getElem?_map, hq, hp]
+  simp [hn]
+
+
+/-- Distinct schema argument names: a positional argument's name determines its index. -/
+theorem pos_index_of_name {a : AtenSchema} (hnd : ((a.positional ++ a.kwonly).map (·.name)).Nodup)
+    {i j : Nat} {x y : AArg} (hx : a.positional[i]? = some x) (hy : a.positional[j]? = some y)
+    (hn : x.name = y.name) : i = j := by
+  have hi : i < a.positional.length := (List.getElem?_eq_some_iff.mp hx).1
+  have hj : j < a.positional.length := (List.getElem?_eq_some_iff.mp hy).1
+  have hlen : i < ((a.positional ++ a.kwonly).map (·.name)).length := by
+    rw [List.length_map, List.length_append]; omega
+  apply (List.getElem?_inj hlen hnd).mp
+  rw [List.getElem?_map, List.getElem?_map, List.getElem?_append_left hi, List.getElem?_append_left hj, hx, hy]
+  simp [hn]
+
+theorem bindsOk_false_clause {m : Mode} {a : AtenSchema} {s : OsSig} (h : bindsOk m a s = false) :
+    ∃ c, clauseOk m a s c = false := by
+  unfold bindsOk at h
+  rw [List.all_eq_false] at h
+  obtain ⟨c, _, hc⟩ := h
+  exact ⟨c, by simpa using hc⟩
+
 /-! ### the regex language -/
 
 theorem takeWhile_all {α} (p : α → Bool) (l : List α) : ∀ x ∈ l.takeWhile p, p x = true := by
@@ -119,7 +289,71 @@ theorem takeWhile_all {α} (p : α → Bool) (l : List α) : ∀ x ∈ l.takeWhi
       · exact ih x hx
     · simp [h] at hx
 
+
+/-! ### resolution of names -/
+
+theorem takeWhile_append_stop {α} (p : α → Bool) (l r : List α) (y : α)
+    (hl : ∀ x ∈ l, p x = true) (hy : p y = false) : (l ++ y :: r).takeWhile p = l := by
+  induction l with
+  | nil => simp [List.takeWhile_cons, hy]
+  | cons a l ih =>
+    have ha := hl a (by simp)
+    simp only [List.cons_append, List.takeWhile_cons, ha, if_true]
+    rw [ih (fun x hx => hl x (by simp [hx]))]
+
+theorem dropWhile_append_stop {α} (p : α → Bool) (l r : List α) (y : α)
+    (hl : ∀ x ∈ l, p x = true) (hy : p y = false) : (l ++ y :: r).dropWhile p = y :: r := by
+  induction l with
+  | nil => simp [List.dropWhile_cons, hy]
+  | cons a l ih =>
+    have ha := hl a (by simp)
+    simp only [List.cons_append, List.dropWhile_cons, ha, if_true]
+    exact ih (fun x hx => hl x (by simp [hx]))
+
+theorem takeWhile_all_true {α} (p : α → Bool) (l : List α) (hl : ∀ x ∈ l, p x = true) :
+    l.takeWhile p = l ∧ l.dropWhile p = [] := by
+  induction l with
+  | nil => simp
+  | cons a l ih =>
+    have ha := hl a (by simp)
+    have := ih (fun x hx => hl x (by simp [hx]))
+    simp [List.takeWhile_cons, List.dropWhile_cons, ha, this]
+
+theorem isWord_ne (c : Nat) (h : isWord c = true) : c ≠ 58 ∧ c ≠ 46 := by
+  unfold isWord at h
+  simp only [Bool.or_eq_true, Bool.and_eq_true, decide_eq_true_eq, beq_iff_eq] at h
+  omega
+
+/-- `resolveKey` on a name of the regex's shape. -/
+theorem resolveKey_shape (ns nm ov : List Nat)
+    (hns : ∀ c ∈ ns, isWord c = true) (hnm : ∀ c ∈ nm, isWord c = true)
+    (hov : ov = [] ∨ ∃ t, ov = 46 :: t) :
+    resolveKey (ns ++ (58 :: 58 :: (nm ++ ov))) =
+      ⟨ns, nm, match ov with | [] => defaultCodes | _ :: t => t⟩ := by
+  have h58 : ∀ x ∈ ns, (x != 58) = true := fun x hx => by simp [(isWord_ne x (hns x hx)).1]
+  have h46 : ∀ x ∈ nm, (x != 46) = true := fun x hx => by simp [(isWord_ne x (hnm x hx)).2]
+  unfold resolveKey
+  rw [takeWhile_append_stop _ ns _ 58 h58 (by decide), dropWhile_append_stop _ ns _ 58 h58 (by decide)]
+  simp only [List.drop_succ_cons, List.drop_zero]
+  rcases hov with rfl | ⟨t, rfl⟩
+  · have := takeWhile_all_true _ nm h46
+    simp [this.1, this.2]
+  · rw [takeWhile_append_stop _ nm t 46 h46 (by decide), dropWhile_append_stop _ nm t 46 h46 (by decide)]
+
 /-! ### cheap duplicate check -/
+
+theorem nodupS_sound (l : List String) (h : nodupS l = true) : l.Nodup := by
+  induction l with
+  | nil => simp
+  | cons k ks ih =>
+    simp only [nodupS, Bool.and_eq_true, Bool.not_eq_true'] at h
+    rw [List.nodup_cons]
+    refine ⟨?_, ih h.2⟩
+    intro hm
+    have := List.contains_iff_mem.mpr hm
+    rw [this] at h
+    exact absurd h.1 (by decide)
+
 
 theorem memN_of_mem (k : Nat) (l : List Nat) (h : k ∈ l) : memN k l = true := by
   induction l with
@@ -227,5 +461,179 @@ theorem register_nodup (r : Reg) (x : Registration) (h : (r.map (·.name)).Nodup
     subst hb
     intro hab
     exact hn (hab ▸ ha)
+
+end OV.C16
+
+namespace OV.C16
+
+
+
+/-! ### the decorator: registries contain only checked names -/
+
+/-- Invariant of every registry built through `torch_op`. -/
+def RegInv (r : Reg) : Prop :=
+  AtMostOne r ∧ (r.map (·.name)).Nodup ∧ ∀ n ∈ r.map (·.name), nameOk n = true
+
+theorem register_inv (r : Reg) (x : Registration) (h : RegInv r) (hx : nameOk x.name = true) :
+    RegInv (register r x) := by
+  refine ⟨register_atMostOne r x h.1, register_nodup r x h.2.1, ?_⟩
+  rw [register_names]
+  split
+  · exact h.2.2
+  · intro n hn
+    rcases List.mem_append.mp hn with hn | hn
+    · exact h.2.2 n hn
+    · simp only [List.mem_singleton] at hn
+      rw [hn]; exact hx
+
+theorem foldl_register_inv (f : Nat) (cx : Bool) (names : List String) (r : Reg) (h : RegInv r)
+    (hn : ∀ n ∈ names, nameOk n = true) :
+    RegInv (names.foldl (fun r n => register r ⟨f, n, cx⟩) r) := by
+  induction names generalizing r with
+  | nil => exact h
+  | cons n ns ih =>
+    simp only [List.foldl_cons]
+    apply ih
+    · exact register_inv r ⟨f, n, cx⟩ h (hn n (by simp))
+    · intro m hm; exact hn m (by simp [hm])
+
+theorem torchOp_inv (r r' : Reg) (d : Decl) (h : RegInv r) (ht : torchOp r d = some r') : RegInv r' := by
+  unfold torchOp at ht
+  by_cases hall : d.names.all nameOk = true
+  · rw [if_pos hall] at ht
+    simp only [Option.some.injEq] at ht
+    subst ht
+    by_cases hp : d.isPrivate = true
+    · simp only [hp, if_true]; exact h
+    · simp only [hp]
+      exact foldl_register_inv _ _ _ r h (fun n hn => (List.all_eq_true.mp hall) n hn)
+  · rw [if_neg hall] at ht; cases ht
+
+theorem runDecls_inv (ds : List Decl) (r r' : Reg) (h : RegInv r) (hr : runDecls r ds = some r') : RegInv r' := by
+  induction ds generalizing r with
+  | nil => simp only [runDecls, Option.some.injEq] at hr; subst hr; exact h
+  | cons d ds ih =>
+    simp only [runDecls] at hr
+    cases ht : torchOp r d with
+    | none => rw [ht] at hr; cases hr
+    | some r1 =>
+      rw [ht] at hr
+      exact ih r1 (torchOp_inv r r1 d h ht) hr
+
+/-! ### first registration wins, as a lookup law -/
+
+theorem lookup_addTo (o : Overloaded) (f : Nat) (cx cx' : Bool) :
+    (if cx' then (addTo o f cx).complex else (addTo o f cx).overloads) =
+      (if cx = cx' ∧ (if cx' then o.complex else o.overloads) = [] then [f]
+       else (if cx' then o.complex else o.overloads)) := by
+  unfold addTo
+  cases cx <;> cases cx'
+  · cases h : o.overloads <;> simp [h]
+  · cases h : o.overloads <;> simp [h]
+  · cases h : o.complex <;> simp [h]
+  · cases h : o.complex <;> simp [h]
+
+theorem lookup_register (r : Reg) (x : Registration) (n : String) (cx : Bool) :
+    lookup (register r x) n cx =
+      if x.name = n ∧ x.isComplex = cx ∧ lookup r n cx = [] then [x.func] else lookup r n cx := by
+  induction r with
+  | nil =>
+    simp only [register, lookup, List.find?_cons, addTo_name, List.find?_nil]
+    by_cases hn : x.name = n
+    · subst hn
+      simp only [beq_self_eq_true, true_and]
+      have := lookup_addTo ⟨x.name, [], []⟩ x.func x.isComplex cx
+      simp only at this
+      rw [this]
+      cases cx <;> simp
+    · have : (x.name == n) = false := by simpa using hn
+      simp [this, hn]
+  | cons o os ih =>
+    simp only [register]
+    by_cases e : (o.name == x.name) = true
+    · have e' : o.name = x.name := by simpa using e
+      rw [if_pos e]
+      simp only [lookup, List.find?_cons, addTo_name]
+      by_cases hn : o.name = n
+      · have hb : (o.name == n) = true := by simpa using hn
+        simp only [hb]
+        rw [lookup_addTo]
+        have hxn : x.name = n := by rw [← e', hn]
+        simp only [hxn, true_and]
+      · have hb : (o.name == n) = false := by simpa using hn
+        have hxn : ¬ x.name = n := by rw [← e']; exact hn
+        simp only [hb, hxn, false_and, if_false]
+    · have e' : ¬ o.name = x.name := by simpa using e
+      rw [if_neg e]
+      by_cases hn : o.name = n
+      · have hb : (o.name == n) = true := by simpa using hn
+        have hxn : ¬ x.name = n := by intro h; exact e' (hn.trans h.symm)
+        simp only [lookup, List.find?_cons, hb, hxn, false_and, if_false]
+      · have hb : (o.name == n) = false := by simpa using hn
+        have := ih
+        simp only [lookup, List.find?_cons, hb] at this ⊢
+        exact this
+
+/-! ### `get_torchlib_ops` yields each (name, kind) once -/
+
+/-- The (qualified name, is_complex) pairs `get_torchlib_ops` returns. -/
+def opsKeys (r : Reg) : List (String × Bool) := (torchlibOps r).map (fun t => (t.1, t.2.2))
+
+def entryKeys (o : Overloaded) : List (String × Bool) :=
+  o.overloads.map (fun _ => (o.name, false)) ++ o.complex.map (fun _ => (o.name, true))
+
+theorem opsKeys_cons (o : Overloaded) (os : Reg) :
+    opsKeys (o :: os) =
+      (if !(internalPrefix.isPrefixOf o.name.toList) then entryKeys o else []) ++ opsKeys os := by
+  unfold opsKeys torchlibOps entryKeys
+  by_cases hk : (!(internalPrefix.isPrefixOf o.name.toList)) = true
+  · simp [List.filter_cons, hk, List.flatMap_cons, List.map_append, List.map_map, Function.comp_def]
+  · simp [List.filter_cons, hk]
+
+theorem mem_opsKeys_name (r : Reg) (k : String × Bool) (h : k ∈ opsKeys r) : k.1 ∈ r.map (·.name) := by
+  induction r with
+  | nil => simp [opsKeys, torchlibOps] at h
+  | cons o os ih =>
+    rw [opsKeys_cons] at h
+    rcases List.mem_append.mp h with h | h
+    · split at h
+      · unfold entryKeys at h
+        simp only [List.mem_append, List.mem_map] at h
+        rcases h with ⟨_, _, rfl⟩ | ⟨_, _, rfl⟩ <;> simp
+      · cases h
+    · simp [ih h]
+
+theorem entryKeys_nodup (o : Overloaded) (h : o.overloads.length ≤ 1 ∧ o.complex.length ≤ 1) :
+    (entryKeys o).Nodup := by
+  unfold entryKeys
+  obtain ⟨h1, h2⟩ := h
+  match ho : o.overloads, hc : o.complex with
+  | [], [] => simp
+  | [_], [] => simp
+  | [], [_] => simp
+  | [_], [_] => simp
+  | _ :: _ :: _, _ => rw [ho] at h1; simp at h1
+  | _, _ :: _ :: _ => rw [hc] at h2; simp at h2
+
+theorem opsKeys_nodup (r : Reg) (h1 : AtMostOne r) (h2 : (r.map (·.name)).Nodup) : (opsKeys r).Nodup := by
+  induction r with
+  | nil => simp [opsKeys, torchlibOps]
+  | cons o os ih =>
+    rw [opsKeys_cons]
+    simp only [List.map_cons, List.nodup_cons] at h2
+    have ihos := ih (fun q hq => h1 q (by simp [hq])) h2.2
+    rw [List.nodup_append]
+    refine ⟨?_, ihos, ?_⟩
+    · split
+      · exact entryKeys_nodup o (h1 o (by simp))
+      · simp
+    · intro a ha b hb hab
+      subst hab
+      have hn := mem_opsKeys_name os a hb
+      split at ha
+      · unfold entryKeys at ha
+        simp only [List.mem_append, List.mem_map] at ha
+        rcases ha with ⟨_, _, rfl⟩ | ⟨_, _, rfl⟩ <;> exact h2.1 hn
+      · cases ha
 
 end OV.C16
